@@ -164,7 +164,8 @@ type StmtFail struct {
 // its N-th external call (SQL statement or ZooKeeper request) after the StartSwitchover write.
 type CrashAt struct {
 	N         int    `json:"n"`
-	Mode      string `json:"mode"` // after | before | zkcut
+	Mode      string `json:"mode"` // after | before | zkcut | fail (the call fails instead of a crash)
+	ArmAfterMs int64 `json:"arm_after_ms,omitempty"` // arm at the first Manager iteration beginning at/after this instant instead of at StartSwitchover
 	RestartMs int64  `json:"restart_ms"` // 0 = never restarted (another host takes over)
 	CutMs     int64  `json:"cut_ms,omitempty"`
 }
